@@ -1,6 +1,7 @@
 #!/bin/sh
 # Offline setup after a fresh restore: build the conformance harness (path deps on /repo), the
-# LD_PRELOAD crash shim and the trust-lsp binary the LSP-facing checks drive.
+# LD_PRELOAD crash shim, the trust-lsp binary the LSP-facing checks drive and the trust-runtime binary
+# (its `conformance` sub-command is driven by C02).
 set -e
 cd "$(dirname "$0")"
 mkdir -p out evidence
@@ -8,4 +9,5 @@ export CARGO_NET_OFFLINE=true
 (cd harness && cargo build --offline --quiet)
 gcc -shared -fPIC -O1 -o out/crashshim.so harness/shim/crashshim.c -ldl
 (cd harness && cargo build --offline --quiet --manifest-path /repo/Cargo.toml -p trust-lsp --bin trust-lsp --target-dir "$(pwd)/target-repo")
+(cd harness && cargo build --offline --quiet --manifest-path /repo/Cargo.toml -p trust-runtime --bin trust-runtime --target-dir "$(pwd)/target-repo")
 echo "setup ok"
